@@ -404,8 +404,20 @@ def extra(ctx, out, quick_n=90, thorough_n=1200):
     out.corr_errors.extend(nc_errs)
     dist['no_conflict_evaluated'] = len(nc_cases)
     dist['no_conflict_true'] = len(nc_cases) - len(nc_bad)
+    # the hypotheses of Main_defined_once (countries_wf on the program, names_wf on the built system)
+    wf_cases = [c.replace('no_conflict ', 'wf_defined_once__ ', 1) for c in nc_cases]
+    wf_bad, wf_errs = common.run_bool_cases(
+        FAMILY, REQUIRES + ['From SFC.GenMain2 Require Import Names.'], wf_cases, tag='wf' + ctx.pid, shard=12,
+        defs='Definition wf_defined_once__ (p : program) : bool := countries_wf p && match build p with Ok E => names_wf E | Err _ => true end.')
+    out.corr_errors.extend(wf_errs)
+    dist['defined_once_hypotheses_true'] = len(wf_cases) - len(wf_bad)
     out.evaluations += len(cases)
     out.nontrivial += len(distinct)
+    # minimum-count guard: an empty or almost empty stream must not pass for a tie
+    n_eval__ = max([v for k, v in dist.items() if isinstance(v, int) and k in ('programs', 'pairs', 'cases', 'sets', 'joints', 'evaluated')] + [0])
+    if n_eval__ < 5:
+        out.corr_errors.append('gen_main: only %d cases were evaluated (distribution %r)' % (n_eval__, {k: v for k, v in dist.items() if isinstance(v, int)}))
+
     out.extra['main_model'] = dist
     out.trusted_base = list(out.trusted_base or []) + TRUSTED
     out.assumptions = list(out.assumptions or []) + ASSUMPTIONS
